@@ -155,6 +155,9 @@ func genC06(g engine.G) *engine.Case {
 	default:
 		sc = engine.GenNasty(g)
 	}
+	if g.Pct(2) {
+		sc = engine.GenMany(g)
+	}
 	sc.RawConverters = g.Pct(15)
 	if t := &sc.Target; g.Pct(10) && !t.HasErr && !t.Built && !t.Identity && t.OutForm == engine.FormPos {
 		// a final result of a concrete error type: an ordinary output
